@@ -296,22 +296,34 @@ impl PoolH {
     }
 
     pub fn add_vote(&mut self, v: ValidatedVote) -> (Result<(), AddVoteError>, Out) {
+        // the finalization log is per thread: a call that panicked earlier on this thread (in another
+        // world) may have left entries behind
+        let _ = verif_take_finalization_log();
         let r = poll_once(self.pool.add_vote(v));
         (r, self.drain())
     }
 
     /// Returns the error as its Debug name (`AddCertError` is not exported).
     pub fn add_cert(&mut self, c: ValidatedCert) -> (Result<(), String>, Out) {
+        // the finalization log is per thread: a call that panicked earlier on this thread (in another
+        // world) may have left entries behind
+        let _ = verif_take_finalization_log();
         let r = poll_once(self.pool.add_cert(c)).map_err(|e| format!("{e:?}"));
         (r, self.drain())
     }
 
     pub fn add_block(&mut self, b: BlockId, p: BlockId) -> Out {
+        // the finalization log is per thread: a call that panicked earlier on this thread (in another
+        // world) may have left entries behind
+        let _ = verif_take_finalization_log();
         poll_once(self.pool.add_block(b, p));
         self.drain()
     }
 
     pub fn standstill(&mut self) -> Out {
+        // the finalization log is per thread: a call that panicked earlier on this thread (in another
+        // world) may have left entries behind
+        let _ = verif_take_finalization_log();
         poll_once(self.pool.recover_from_standstill());
         self.drain()
     }
